@@ -3,17 +3,20 @@
 from __future__ import annotations
 
 import ast
+import copy
 import re
 
 import sympy as sp
 
-from ..cfg import cfg_of
+from ..cfg import EXIT, cfg_of
 from ..core import named_args, AnalysisError, call_name, const_value, dotted, unparse, walk_no_nested
 from ..report import Ctx
 from ..sym import ToSympy, equal, inline_defs, inline_returns, matrix_index, unknowns
 from ..pattern import body_is, find, find_expr, has, has_expr
 
-L, L0, Li, K, N = sp.symbols('L L0 Li K N')
+L, L0, Li = sp.symbols('L L0 Li')
+#: the number of parameters and the sample size are counts: int(N) is N
+K, N = sp.symbols('K N', integer=True)
 SYMS = {'self.data.logLike': L, 'self.data.nullLogLike': L0, 'self.data.initLogLike': Li, 'self.data.nparam': K, 'self.data.sampleSize': N}
 
 FORMULAS = {
@@ -65,6 +68,106 @@ def _strip(e: ast.expr) -> ast.expr:
             return e
 
 
+def free_names(e: ast.AST) -> list[ast.Name]:
+    """the names read in e that are variables of the enclosing function: a name bound inside e by a comprehension or a lambda
+    is a variable of that comprehension / lambda, whatever the function calls the same way"""
+    out: list[ast.Name] = []
+
+    def go(n: ast.AST, bound: frozenset) -> None:
+        if isinstance(n, ast.Name):
+            if isinstance(n.ctx, ast.Load) and n.id not in bound:
+                out.append(n)
+            return
+        if isinstance(n, (ast.ListComp, ast.SetComp, ast.GeneratorExp, ast.DictComp)):
+            b = bound
+            for k, g in enumerate(n.generators):
+                go(g.iter, bound if k == 0 else b)  # the first iterable is evaluated outside
+                b = b | {x.id for x in ast.walk(g.target) if isinstance(x, ast.Name)}
+                for c in g.ifs:
+                    go(c, b)
+            for part in ([n.key, n.value] if isinstance(n, ast.DictComp) else [n.elt]):
+                go(part, b)
+            return
+        if isinstance(n, ast.Lambda):
+            a = n.args
+            for d in list(a.defaults) + [d for d in a.kw_defaults if d is not None]:
+                go(d, bound)
+            go(n.body, bound | {x.arg for x in a.posonlyargs + a.args + a.kwonlyargs + ([a.vararg] if a.vararg else []) + ([a.kwarg] if a.kwarg else [])})
+            return
+        for c in ast.iter_child_nodes(n):
+            go(c, bound)
+
+    go(e, frozenset())
+    return out
+
+
+def _flat_targets(t: ast.expr) -> list[ast.expr]:
+    if isinstance(t, (ast.Tuple, ast.List)):
+        return [y for x in t.elts for y in _flat_targets(x)]
+    if isinstance(t, ast.Starred):
+        return _flat_targets(t.value)
+    return [t]
+
+
+def _store_targets(n: ast.AST) -> list[ast.expr]:
+    """what the statement n binds or writes into"""
+    if isinstance(n, ast.Assign):
+        return [y for t in n.targets for y in _flat_targets(t)]
+    if isinstance(n, (ast.AugAssign, ast.AnnAssign)):
+        return _flat_targets(n.target)
+    if isinstance(n, ast.Delete):
+        return [y for t in n.targets for y in _flat_targets(t)]
+    if isinstance(n, (ast.For, ast.AsyncFor)):
+        return _flat_targets(n.target)
+    if isinstance(n, (ast.With, ast.AsyncWith)):
+        return [y for it in n.items if it.optional_vars is not None for y in _flat_targets(it.optional_vars)]
+    return []
+
+
+def stores_of(func_node: ast.AST, chain: str) -> list[ast.AST]:
+    """the statements of the function that write the attribute `chain` (a dotted text) or one of its elements (chain[i] = ...),
+    by any kind of assignment, in source order"""
+    out = []
+    for n in walk_no_nested(func_node):
+        for t in _store_targets(n):
+            while isinstance(t, ast.Subscript):
+                t = t.value
+            if dotted(t) == chain:
+                out.append(n)
+                break
+    return sorted(out, key=lambda x: (x.lineno, x.col_offset))
+
+
+def plain_store(n: ast.AST, chain: str) -> bool:
+    return isinstance(n, ast.Assign) and len(n.targets) == 1 and dotted(n.targets[0]) == chain
+
+
+def text_parts(e: ast.expr) -> tuple[str, list[ast.expr]]:
+    """(the literal text, the embedded values) of a text assembled from literals and values: f-string, 'lit %s' % x,
+    'lit {}'.format(x), a + b; any other expression is one embedded value"""
+    if isinstance(e, ast.Constant) and isinstance(e.value, str):
+        return e.value, []
+    if isinstance(e, ast.JoinedStr):
+        txt, vals = '', []
+        for v in e.values:
+            if isinstance(v, ast.FormattedValue) and isinstance(v.value, ast.Constant) and isinstance(v.value.value, str) and v.conversion == -1 and v.format_spec is None:
+                txt += v.value.value  # a text placed in an f-string is that text
+            elif isinstance(v, ast.FormattedValue):
+                vals.append(v.value)
+            else:
+                t_, v_ = text_parts(v)
+                txt, vals = txt + t_, vals + v_
+        return txt, vals
+    if isinstance(e, ast.BinOp) and isinstance(e.op, ast.Mod) and isinstance(e.left, ast.Constant) and isinstance(e.left.value, str):
+        return re.sub(r'%[-0-9.]*[sdrfg]', '', e.left.value), list(e.right.elts) if isinstance(e.right, ast.Tuple) else [e.right]
+    if isinstance(e, ast.BinOp) and isinstance(e.op, ast.Add):
+        (t1, v1), (t2, v2) = text_parts(e.left), text_parts(e.right)
+        return t1 + t2, v1 + v2
+    if isinstance(e, ast.Call) and isinstance(e.func, ast.Attribute) and e.func.attr == 'format' and isinstance(e.func.value, ast.Constant) and isinstance(e.func.value.value, str):
+        return re.sub(r'\{[^{}]*\}', '', e.func.value.value), list(e.args) + [k.value for k in e.keywords]
+    return '', [e]
+
+
 #: obligations whose failure contradicts the property (rule, construct pattern, why); every other failure is 'not recognised'
 POSITIVE: list[tuple[str, str, str]] = [
 ]
@@ -104,6 +207,42 @@ def run(ctx: Ctx) -> None:
             e = _strip(inline_returns(prog, func, inline_defs(func.node, e)))
         return matrix_index(e)
 
+    ccfg = cfg_of(cs.node)
+    parent = {id(c): p_ for p_ in ast.walk(cs.node) for c in ast.iter_child_nodes(p_)}
+
+    def block_of(st: ast.AST):
+        """the statement list that holds st"""
+        p_ = parent.get(id(st))
+        for fld in ('body', 'orelse', 'finalbody'):
+            b_ = getattr(p_, fld, None)
+            if isinstance(b_, list) and st in b_:
+                return b_
+        return None
+
+    def final_value(target: str, s: ast.Assign):
+        """(the expression whose value the attribute holds when _calculate_stats ends, None) or (None, why it cannot be read):
+        every store to the attribute counts, not only `target = <formula>`: `target op= e` after the formula in the same block is
+        the binary operation; any other further store, or a formula that is overwritten on every path, leaves the value open"""
+        short = target.split('.')[-1]
+        every = stores_of(cs.node, target)
+        odd = [x for x in every if not plain_store(x, target)]
+        augs = [x for x in odd if isinstance(x, ast.AugAssign) and dotted(x.target) == target]
+        rest = [x for x in odd if x not in augs]
+        if rest:
+            return None, f'{short} is also written at line {rest[0].lineno} (`{unparse(rest[0])[:60]}`), in a way the rule does not read'
+        value = s.value
+        if augs:
+            blk = block_of(s)
+            if blk is None or any(a not in blk or blk.index(a) < blk.index(s) for a in augs) \
+                    or any(x in blk and blk.index(s) < blk.index(x) < max(blk.index(a) for a in augs) for x in every if x is not s and x not in augs):
+                return None, f'{short} is modified at line {augs[0].lineno} (`{unparse(augs[0])[:60]}`), not in sequence with its formula'
+            for a in sorted(augs, key=blk.index):
+                value = ast.copy_location(ast.BinOp(left=value, op=a.op, right=a.value), a)
+        at = ccfg.node_of(s)
+        if at is None or at not in {d.node for d in ccfg.reaching(EXIT, target)}:
+            return None, f'the value given to {short} at line {s.lineno} is overwritten before _calculate_stats ends'
+        return value, None
+
     for target, want in FORMULAS.items():
         ss = [s for s in assigns.get(target, []) if unparse(s.value) != 'None']
         if len(ss) != 1:
@@ -111,14 +250,17 @@ def run(ctx: Ctx) -> None:
         s = ss[0]
         short = target.split('.')[-1]
         try:
-            got = ToSympy(hook=hook)(formula(cs, s.value))
+            value, why = final_value(target, s)
+            if value is None:
+                raise AnalysisError(why)
+            got = ToSympy(hook=hook)(formula(cs, value))
             unk = unknowns(got, known)
             ok = None if unk else equal(got, want)
             msg = (f'the right-hand side of {short} = {got} contains {", ".join(unk)}, which the rule cannot relate to the quantities of the defining formula {want}: not comparable' if unk
                    else f'{short} = {got}' + ('' if ok else f'; the defining formula is {want}'))
         except AnalysisError as ex:
-            got, ok = str(ex), None  # the right-hand side is not arithmetic the translation understands
-            msg = f'the right-hand side of {short} is not in a form the formula translation understands: {got}'
+            got, ok = str(ex), None  # the right-hand side is not arithmetic the translation understands, or not the only store
+            msg = f'the value of {short} is not in a form the formula translation understands: {got}'
         # positive: every symbol is a named quantity of the results record and the normal forms differ
         ctx.add('C08.R1', target.replace('self.data.', 'stat:'), ok, (cs.file, s.lineno), msg, detail=str(got), positive=ok is False)
         if target in GUARD:
@@ -176,9 +318,21 @@ return __MAX
             raise AnalysisError(f'C08.R1: {target} assigned {len(ss)} times')
         return ss[0]
 
+    def modified(target: str) -> str:
+        """'' when the plain assignments are the only stores to the matrix; otherwise the first other store (target op= e,
+        target[i, j] = e, unpacking ...): the matrix the results hold is then not the value of the formula that was read"""
+        odd = [x for x in stores_of(cs.node, target) if not plain_store(x, target)]
+        return f'; but {target} is written again at line {odd[0].lineno} (`{unparse(odd[0])[:60]}`): what the results hold is not the value of this formula alone' if odd else ''
+
+    def add_matrix(construct, target, ok, line, msg, detail, positive=False):
+        mod = modified(target)
+        if mod:
+            ok, positive = None, False
+        ctx.add('C08.R1', construct, ok, (cs.file, line), msg + mod, detail, positive=positive)
+
     s = single('self.data.varCovar')
     ok = unparse(s.value).replace(' ', '') in ('-linalg.pinv(np.nan_to_num(self.data.H))', '-linalg.pinv(self.data.H)', '-np.linalg.pinv(np.nan_to_num(self.data.H))')
-    ctx.add('C08.R1', 'matrix:varCovar', ok, (cs.file, s.lineno), f'varCovar = {unparse(s.value)}' + ('' if ok else '; expected -pinv(H)'), unparse(s.value))
+    add_matrix('matrix:varCovar', 'self.data.varCovar', ok, s.lineno, f'varCovar = {unparse(s.value)}' + ('' if ok else '; expected -pinv(H)'), unparse(s.value))
     s = single('self.data.robust_varCovar')
     ok = unparse(s.value).replace(' ', '').replace('\n', '') in ('self.data.varCovar.dot(self.data.bhhh.dot(self.data.varCovar))', 'self.data.varCovar@self.data.bhhh@self.data.varCovar', 'self.data.varCovar.dot(self.data.bhhh).dot(self.data.varCovar)')
     def chain(e):
@@ -197,8 +351,8 @@ return __MAX
     sandwich = ['self.data.varCovar', 'self.data.bhhh', 'self.data.varCovar']
     ok = ok or fac == sandwich  # the product V.B.V, however it is bracketed and whatever its factors are called
     other = fac is not None and fac != sandwich and set(fac) <= {'self.data.varCovar', 'self.data.bhhh', 'self.data.H'}
-    ctx.add('C08.R1', 'matrix:robust_varCovar', ok if (ok or other) else None, (cs.file, s.lineno), f'robust_varCovar = {unparse(s.value)}' + ('' if ok or fac == sandwich else ('; expected V.B.V' if other else ': not in the expected form (a product of three matrices)')),
-            unparse(s.value), positive=other)
+    add_matrix('matrix:robust_varCovar', 'self.data.robust_varCovar', ok if (ok or other) else None, s.lineno, f'robust_varCovar = {unparse(s.value)}' + ('' if ok or fac == sandwich else ('; expected V.B.V' if other else ': not in the expected form (a product of three matrices)')),
+               unparse(s.value), positive=other)
     s = single('self.data.bootstrap_varCovar')
     v_ = inline_defs(cs.node, s.value)
     rowvar = None  # True / False: the constant the call passes (or numpy's default); None: cannot tell
@@ -211,8 +365,8 @@ return __MAX
             rowvar = bool(kw[0].value)  # rowvar=0 and rowvar=False are the same request
     ok = rowvar is False
     rows_as_vars = rowvar is True
-    ctx.add('C08.R1', 'matrix:bootstrap_varCovar', ok if (ok or rows_as_vars) else None, (cs.file, s.lineno), f'bootstrap_varCovar = {unparse(s.value)}' + ('' if ok else ('; the replications are the rows: expected cov(replications, rowvar=False)' if rows_as_vars else ': not in the expected form')),
-            unparse(s.value), positive=bool(rows_as_vars))
+    add_matrix('matrix:bootstrap_varCovar', 'self.data.bootstrap_varCovar', ok if (ok or rows_as_vars) else None, s.lineno, f'bootstrap_varCovar = {unparse(s.value)}' + ('' if ok else ('; the replications are the rows: expected cov(replications, rowvar=False)' if rows_as_vars else ': not in the expected form')),
+               unparse(s.value), positive=bool(rows_as_vars))
 
     # ---- family blocks
     BLOCK = """
@@ -229,7 +383,6 @@ if (_D > 0).all():
 else:
     self.data.FAMcorrelation = np.full_like(self.data.FAMvarCovar, np.finfo(float).max)
 """
-    ccfg = cfg_of(cs.node)
     fam_of = {f'self.data.{f}varCovar': f for f in FAMILIES}
 
     def matrices(e: ast.AST) -> set[str]:
@@ -243,28 +396,41 @@ else:
                 shape_only.add(id(n.args[0]))
         return {fam_of[dotted(n)] for n in ast.walk(e) if isinstance(n, ast.Attribute) and id(n) not in shape_only and dotted(n) in fam_of}
 
-    def sources(e: ast.AST):
-        """(family, how) for every matrix that can enter the value of e (a node of _calculate_stats): read in e itself, or in a
-        definition that reaches one of its locals (reaching definitions on the CFG, followed through locals)"""
-        out = [(f_, None) for f_ in sorted(matrices(e))]
-        todo = [x for x in ast.walk(e) if isinstance(x, ast.Name) and isinstance(x.ctx, ast.Load)]
-        seen = set()
-        while todo and len(seen) < 40:
-            nm = todo.pop()
-            if id(nm) in seen:
-                continue
-            seen.add(id(nm))
-            at = ccfg.node_of(nm)
-            for d in (ccfg.reaching(at, nm.id) if at is not None else []):
-                if d.kind != 'assign' or d.value is None:
-                    continue
-                out += [(f_, f'{nm.id} can still hold `{unparse(d.value)}` (line {getattr(d.value, "lineno", "?")})') for f_ in sorted(matrices(d.value))]
-                todo += [x for x in ast.walk(d.value) if isinstance(x, ast.Name) and isinstance(x.ctx, ast.Load)]
-        return out
+    def sources(e: ast.AST) -> tuple[dict, set]:
+        """(definite, possible) for the matrices that enter the value of e (a node of _calculate_stats).  definite: family -> how,
+        for a matrix read in e itself, or read by EVERY definition that reaches one of the function's variables e reads (reaching
+        definitions on the CFG, followed through the variables): whatever path is taken, that matrix enters the value.
+        possible: the families read by at least one reaching definition (the analysis does not follow conditions: a definition
+        that reaches along the graph may be excluded by the tests on the way)."""
+        memo: dict[int, tuple[dict, set]] = {}
+
+        def go(x: ast.AST, depth: int, stack: frozenset) -> tuple[dict, set]:
+            if id(x) in memo:
+                return memo[id(x)]
+            direct = matrices(x)
+            definite: dict = {f_: None for f_ in sorted(direct)}
+            possible = set(direct)
+            if depth > 0:
+                for nm in free_names(x):
+                    at = ccfg.node_of(nm)
+                    ds = ccfg.reaching(at, nm.id) if at is not None else []
+                    common = None
+                    for d in ds:
+                        if d.kind != 'assign' or d.value is None or id(d.value) in stack:
+                            dd, pp = {}, set()  # a definition the rule does not read: nothing is certain through this name
+                        else:
+                            dd, pp = go(d.value, depth - 1, stack | {id(d.value)})
+                            dd = {f_: (h or f'{nm.id} holds `{unparse(d.value)}` (line {getattr(d.value, "lineno", "?")})') for f_, h in dd.items()}
+                        possible |= pp
+                        common = dd if common is None else {f_: h for f_, h in common.items() if f_ in dd}
+                    for f_, h in (common or {}).items():
+                        definite.setdefault(f_, h)
+            memo[id(x)] = (definite, possible)
+            return memo[id(x)]
+
+        return go(e, 6, frozenset())
 
     COR = BLOCK[BLOCK.index('_D = np.diag'):]
-    parent = {id(c): p_ for p_ in ast.walk(cs.node) for c in ast.iter_child_nodes(p_)}
-
     def resolved(e: ast.expr) -> str:
         return unparse(matrix_index(inline_defs(cs.node, e)))
 
@@ -308,15 +474,18 @@ else:
         reads = set()
         stale = None
         for what, e in fed:
-            for f_, how in sources(e):
-                reads.add(f'{f_}varCovar')
+            definite, possible = sources(e)
+            reads |= {f'{f_}varCovar' for f_ in possible}
+            for f_, how in definite.items():
                 if f_ != fam and stale is None:
                     stale = (f'{what} is computed from self.data.{f_}varCovar' if how is None else f'{how}, which enters {what}') + \
                         f': the {FAMNAME[fam]} ' + ('correlations are normalised with the standard deviations' if 'correlation' in what else 'standard errors are computed from the variances') + ' of another family'
         own = {f'{fam}varCovar'}
+        # the matrix or the correlation of the family written by anything else than plain assignments: what the block computes is not what the results hold
+        rewritten = [x for tgt in (f'self.data.{fam}correlation',) for x in stores_of(cs.node, tgt) if not plain_store(x, tgt)]
         if stale:
             ok = False
-        elif not ok:
+        elif not ok or rewritten:
             ok = None  # every standard error and correlation of the family comes from its own matrix (or from values the rule cannot trace): only the spelling is not the one the rule knows
         ctx.add('C08.R2', f'_calculate_stats:{FAMNAME[fam]}', ok, (cs.file, line),
                 f'{FAMNAME[fam]} block: std err_i = sqrt(V_ii) and correlation = D^-1 V D^-1 of its own matrix' if ok
@@ -341,12 +510,34 @@ self.{fam}pValue = calc_p_value(self.{fam}tTest)
     so = [n for n in walk_no_nested(cs.node) if isinstance(n, ast.Assign) and isinstance(n.targets[0], ast.Subscript) and unparse(n.targets[0].value) == 'self.data.secondOrderTable']
     ctx.need(len(so) == 2, 'two writers of secondOrderTable entries (with / without bootstrap)')
     tdefs = {}
+    #: how many times each local of _calculate_stats is bound (a name bound twice does not stand for one definition)
+    nbind: dict[str, int] = {}
     for n in walk_no_nested(cs.node):
-        if isinstance(n, ast.Assign) and isinstance(n.targets[0], ast.Name) and isinstance(n.value, ast.Call):
-            if unparse(n.value.func) == 'self._calculate_test':
+        if isinstance(n, ast.Name) and isinstance(n.ctx, (ast.Store, ast.Del)):
+            nbind[n.id] = nbind.get(n.id, 0) + 1
+    for n in walk_no_nested(cs.node):
+        if isinstance(n, ast.Assign) and len(n.targets) == 1 and isinstance(n.targets[0], ast.Name) and isinstance(n.value, ast.Call) and nbind.get(n.targets[0].id) == 1:
+            if unparse(n.value.func) == 'self._calculate_test' and len(n.value.args) == 3 and not n.value.keywords:
                 tdefs[n.targets[0].id] = ('test', unparse(n.value.args[2]), [unparse(a) for a in n.value.args[:2]])
-            elif call_name(n.value) == 'calc_p_value':
+            elif call_name(n.value) == 'calc_p_value' and len(n.value.args) == 1 and not n.value.keywords:
                 tdefs[n.targets[0].id] = ('p', unparse(n.value.args[0]), None)
+
+    def list_elts(e: ast.expr, depth: int = 4):
+        """the elements of a list written as a display, as a concatenation of lists, or kept in a local that is bound once to such
+        a list and never used as the object of a method or an element store; None for anything else"""
+        if isinstance(e, ast.List):
+            return None if any(isinstance(x, ast.Starred) for x in e.elts) else list(e.elts)
+        if isinstance(e, ast.BinOp) and isinstance(e.op, ast.Add):
+            l_, r_ = list_elts(e.left, depth), list_elts(e.right, depth)
+            return None if l_ is None or r_ is None else l_ + r_
+        if isinstance(e, ast.Name) and depth > 0 and nbind.get(e.id) == 1:
+            ds = [n for n in walk_no_nested(cs.node) if isinstance(n, ast.Assign) and len(n.targets) == 1 and isinstance(n.targets[0], ast.Name) and n.targets[0].id == e.id]
+            touched = any((isinstance(n, ast.Attribute) and isinstance(n.value, ast.Name) and n.value.id == e.id)
+                          or (isinstance(n, ast.Subscript) and isinstance(n.ctx, (ast.Store, ast.Del)) and isinstance(n.value, ast.Name) and n.value.id == e.id)
+                          for n in walk_no_nested(cs.node))
+            if len(ds) == 1 and not touched:
+                return list_elts(ds[0].value, depth - 1)
+        return None
     outer = [n for n in walk_no_nested(cs.node) if isinstance(n, ast.For) and any(x in so for x in ast.walk(n)) and unparse(n.iter) == 'range(self.data.nparam)']
     ctx.need(len(outer) == 1 and isinstance(outer[0].body[0], ast.For), 'the pairwise loop of _calculate_stats')
     LI, LJ = unparse(outer[0].target), unparse(outer[0].body[0].target)
@@ -355,7 +546,11 @@ self.{fam}pValue = calc_p_value(self.{fam}tTest)
     okp = okp and len(key) == 1 and all(unparse(w.targets[0].slice) == unparse(key[0].targets[0]) for w in so)
     ctx.add('C08.R2', 'secondOrderTable:pairs', okp, (cs.file, outer[0].lineno), 'one entry per pair j < i, keyed by the two parameter names' if okp else 'the pairs of the second-order table are no longer (betaNames[i], betaNames[j]) for j < i', 'pairs')
     for w in so:
-        elts = [unparse(e) for e in w.value.elts]
+        elts_ = list_elts(w.value)
+        if elts_ is None or len(elts_) not in (8, 12):
+            ctx.add('C08.R2', f'secondOrderTable[?]@{w.lineno}', None, (cs.file, w.lineno), f'the entry stored in the second-order table, `{unparse(w.value)[:80]}`, is not a list of 8 or 12 quantities the rule can read', detail=unparse(w.value)[:80])
+            continue
+        elts = [unparse(e) for e in elts_]
         nfam = len(elts) // 4
         for k in range(nfam):
             fam = FAMILIES[k]
@@ -415,51 +610,124 @@ return biogeme.tools.likelihood_ratio.likelihood_ratio_test((_LU, _KU), (_LR, _K
     bv = unparse(rows[0].target)
     n_lab = 0
     seen_labels = set()
-    for d in [n for n in ast.walk(rows[0]) if isinstance(n, ast.Dict) and n.keys and all(isinstance(k, ast.Constant) and isinstance(k.value, str) for k in n.keys)]:
-        for k, v in zip(d.keys, d.values):
-            lab = k.value
-            if lab == 'Active bound':
-                continue
-            seen_labels.add(lab)
-            want = PARAM_LABELS.get(lab)
-            want = want.replace('b.', bv + '.', 1) if want else None
-            ok = want is not None and unparse(v) == want
-            n_lab += 1
-            # another attribute of the same parameter under this label is a contradiction; anything else is not understood
-            other = want is not None and not ok and re.fullmatch(rf'{re.escape(bv)}\.\w+', unparse(v)) is not None
-            ctx.add('C08.R3', f'get_estimated_parameters[{lab}]@{len([x for x in ctx.obligations if x.construct.startswith("get_estimated_parameters[" + lab + "]")])}', ok if (ok or other) else None, (gp.file, k.lineno),
-                    f"'{lab}': {unparse(v)}" + ('' if ok else (f'; the label names {want}' if other else ': the cell is not in the expected form (an attribute of the parameter)')), f'{lab}:{unparse(v).replace(bv + ".", "b.")}', positive=other)
+    # the row of the table is the dict handed to `<table>.loc[<parameter>.name] = pd.Series(<row>)`: only what is put into THAT
+    # dict is a cell of the table (another dict of the loop is whatever the code uses it for)
     rowvar = None
     for n in ast.walk(rows[0]):
-        if isinstance(n, ast.Assign) and isinstance(n.value, ast.Dict) and isinstance(n.targets[0], ast.Name):
-            rowvar = n.targets[0].id
+        if isinstance(n, ast.Assign) and len(n.targets) == 1 and isinstance(n.targets[0], ast.Subscript) and isinstance(n.targets[0].value, ast.Attribute) and n.targets[0].value.attr == 'loc' \
+                and isinstance(n.value, ast.Call) and dotted(n.value.func) in ('pd.Series', 'pandas.Series') and len(n.value.args) == 1 and isinstance(n.value.args[0], ast.Name):
+            rowvar = n.value.args[0].id
+    ctx.need(rowvar is not None, 'get_estimated_parameters stores pd.Series(<row dict>) in the table')
+    gbind: dict[str, int] = {}
+    for n in walk_no_nested(gp.node):
+        if isinstance(n, ast.Name) and isinstance(n.ctx, (ast.Store, ast.Del)):
+            gbind[n.id] = gbind.get(n.id, 0) + 1
+
+    def literal_dict(name: str):
+        """the dict display a local is bound to, when it is bound once and only read afterwards (no method but items / keys /
+        values / get, no element store); None otherwise"""
+        ds = [n for n in walk_no_nested(gp.node) if isinstance(n, ast.Assign) and len(n.targets) == 1 and isinstance(n.targets[0], ast.Name) and n.targets[0].id == name]
+        if gbind.get(name) != 1 or len(ds) != 1 or not isinstance(ds[0].value, ast.Dict) or not ds[0].value.keys or not all(isinstance(k, ast.Constant) and isinstance(k.value, str) for k in ds[0].value.keys):
+            return None
+        for n in walk_no_nested(gp.node):
+            if isinstance(n, ast.Attribute) and isinstance(n.value, ast.Name) and n.value.id == name and n.attr not in ('items', 'keys', 'values', 'get'):
+                return None
+            if isinstance(n, ast.Subscript) and isinstance(n.ctx, (ast.Store, ast.Del)) and isinstance(n.value, ast.Name) and n.value.id == name:
+                return None
+        return ds[0].value
+
+    gparent = {id(c): p_ for p_ in ast.walk(rows[0]) for c in ast.iter_child_nodes(p_)}
+
+    def put(e: ast.expr, env: dict) -> ast.expr:
+        class Put(ast.NodeTransformer):
+            def visit_Name(self, n):
+                return copy.deepcopy(env[n.id]) if isinstance(n.ctx, ast.Load) and n.id in env else n
+
+        return ast.fix_missing_locations(Put().visit(copy.deepcopy(e)))
+
+    # (label expression, value expression, line) of every cell put into the row: the pairs of the dict displays bound to the row,
+    # the element stores row[label] = value; a store inside `for k, v in D.items()` over a literal dict D is one store per pair of D
+    cells_: list = []
+    sure = True  # every way the row is filled has been read
     for n in ast.walk(rows[0]):
-        if isinstance(n, ast.Assign) and isinstance(n.targets[0], ast.Subscript) and unparse(n.targets[0].value) == rowvar:
-            lab_node = n.targets[0].slice
-            if isinstance(lab_node, ast.Name):
-                # a label computed once and kept in a local: read its (single) definition
-                defs = [a.value for a in ast.walk(gp.node) if isinstance(a, ast.Assign) and len(a.targets) == 1 and isinstance(a.targets[0], ast.Name) and a.targets[0].id == lab_node.id]
-                if len(defs) == 1:
-                    lab_node = defs[0]
-            lab = unparse(lab_node)
-            if isinstance(lab_node, ast.Constant) and lab_node.value == 'Active bound':
-                continue
-            if isinstance(lab_node, ast.JoinedStr) and lab_node.values and isinstance(lab_node.values[0], ast.Constant) and str(lab_node.values[0].value).startswith('Bootstrap[') \
-                    and isinstance(lab_node.values[-1], ast.Constant) and str(lab_node.values[-1].value).endswith('Std err'):
-                want = f'{bv}.bootstrap_stdErr'
-                seen_labels.add('Bootstrap Std err')
-            elif isinstance(lab_node, ast.Constant) and isinstance(lab_node.value, str):
-                seen_labels.add(lab_node.value)
-                want = (PARAM_LABELS.get(lab_node.value) or '?').replace('b.', bv + '.', 1)
+        if isinstance(n, ast.Assign) and any(isinstance(t, ast.Name) and t.id == rowvar for t_ in n.targets for t in _flat_targets(t_)):
+            if len(n.targets) == 1 and isinstance(n.value, ast.Dict):
+                cells_ += [(k, v, (k or v).lineno) for k, v in zip(n.value.keys, n.value.values)]
             else:
-                want = '?'
-            ok = unparse(n.value) == want
+                cells_.append((None, n.value, n.lineno))
+        elif isinstance(n, (ast.AugAssign, ast.AnnAssign)) and isinstance(n.target, ast.Name) and n.target.id == rowvar:
+            cells_.append((None, n.value or n.target, n.lineno))
+        elif isinstance(n, ast.Call) and isinstance(n.func, ast.Attribute) and isinstance(n.func.value, ast.Name) and n.func.value.id == rowvar:
+            # row.update(D): the pairs of D, for D a dict display, a local bound once to one, or {label: cell for k, v in L.items()}
+            # over such a literal L (one pair per pair of L); any other method of the row fills cells the rule does not read
+            got_ = None
+            if n.func.attr == 'update' and len(n.args) == 1 and not n.keywords and isinstance(gparent.get(id(n)), ast.Expr):
+                a0 = n.args[0]
+                if isinstance(a0, ast.Name):
+                    a0 = literal_dict(a0.id)
+                if isinstance(a0, ast.Dict):
+                    got_ = [(k, v, n.lineno) for k, v in zip(a0.keys, a0.values)]
+                elif isinstance(a0, ast.DictComp) and len(a0.generators) == 1 and not a0.generators[0].ifs and not a0.generators[0].is_async:
+                    g_ = a0.generators[0]
+                    it = g_.iter
+                    if isinstance(it, ast.Call) and isinstance(it.func, ast.Attribute) and it.func.attr == 'items' and not it.args and not it.keywords and isinstance(it.func.value, ast.Name) \
+                            and isinstance(g_.target, ast.Tuple) and len(g_.target.elts) == 2 and all(isinstance(x, ast.Name) for x in g_.target.elts):
+                        lit = literal_dict(it.func.value.id)
+                        kn, vn = (x.id for x in g_.target.elts)
+                        if lit is not None and kn != vn:
+                            got_ = [(put(a0.key, {kn: k, vn: v}), put(a0.value, {kn: k, vn: v}), n.lineno) for k, v in zip(lit.keys, lit.values)]
+            elif n.func.attr in ('items', 'keys', 'values', 'get', 'copy'):
+                got_ = []  # reads
+            cells_ += got_ if got_ is not None else [(None, n, n.lineno)]
+        elif isinstance(n, ast.Assign) and len(n.targets) == 1 and isinstance(n.targets[0], ast.Subscript) and isinstance(n.targets[0].value, ast.Name) and n.targets[0].value.id == rowvar:
+            envs = [{}]
+            loop = gparent.get(id(n))
+            if isinstance(loop, (ast.For, ast.While)) and loop is not rows[0]:
+                envs = None
+                it = getattr(loop, 'iter', None)
+                if isinstance(it, ast.Call) and isinstance(it.func, ast.Attribute) and it.func.attr == 'items' and not it.args and not it.keywords and isinstance(it.func.value, ast.Name) \
+                        and isinstance(loop.target, ast.Tuple) and len(loop.target.elts) == 2 and all(isinstance(x, ast.Name) for x in loop.target.elts) and not loop.orelse \
+                        and not any(isinstance(x, (ast.Break, ast.Continue)) for x in ast.walk(loop)):
+                    lit = literal_dict(it.func.value.id)
+                    kn, vn = (x.id for x in loop.target.elts)
+                    if lit is not None and gbind.get(kn) == 1 and gbind.get(vn) == 1:
+                        envs = [{kn: k, vn: v} for k, v in zip(lit.keys, lit.values)]
+            if envs is None:
+                cells_.append((None, n.value, n.lineno))
+            else:
+                cells_ += [(put(n.targets[0].slice, env), put(n.value, env), n.lineno) for env in envs]
+    for lab_node, val_node, line in cells_:
+        if lab_node is None:
+            sure = False
             n_lab += 1
-            other = '?' not in want and not ok and re.fullmatch(rf'{re.escape(bv)}\.\w+', unparse(n.value)) is not None
-            ctx.add('C08.R3', f'get_estimated_parameters[{lab[:30]}]', ok if (ok or other) else None, (gp.file, n.lineno), f'{lab[:40]}: {unparse(n.value)}' + ('' if ok else (f'; the label names {want}' if other else ': label or cell not in the expected form')),
-                    f'{lab}:{unparse(n.value).replace(bv + ".", "b.")}', positive=other)
+            ctx.add('C08.R3', f'get_estimated_parameters[?]@{line}', None, (gp.file, line), f'the row of the parameter table is filled by `{unparse(val_node)[:60]}`, which the rule does not read as (label, cell) pairs', unparse(val_node)[:60])
+            continue
+        txt, vals = text_parts(inline_defs(gp.node, lab_node))
+        if not vals:
+            lab = txt
+        elif txt == 'Bootstrap[] Std err' and len(vals) == 1:
+            lab = 'Bootstrap Std err'
+        else:
+            lab = None
+        if lab == 'Active bound':
+            continue
+        val = unparse(inline_defs(gp.node, val_node))
+        if lab is None:
+            # a label whose text is not established is not a label of the table: nothing is contradicted
+            sure = False
+            n_lab += 1
+            ctx.add('C08.R3', f'get_estimated_parameters[{unparse(lab_node)[:30]}]', None, (gp.file, line), f'the label {unparse(lab_node)[:40]} of the cell {val[:40]} is not a text the rule can establish', f'{unparse(lab_node)}:{val.replace(bv + ".", "b.")}')
+            continue
+        seen_labels.add(lab)
+        want = f'{bv}.bootstrap_stdErr' if lab == 'Bootstrap Std err' else (PARAM_LABELS[lab].replace('b.', bv + '.', 1) if lab in PARAM_LABELS else None)
+        ok = want is not None and val == want
+        n_lab += 1
+        # another attribute of the same parameter under this label is a contradiction; anything else is not understood
+        other = want is not None and not ok and re.fullmatch(rf'{re.escape(bv)}\.\w+', val) is not None
+        ctx.add('C08.R3', f'get_estimated_parameters[{lab}]@{len([x for x in ctx.obligations if x.construct.startswith("get_estimated_parameters[" + lab + "]")])}', ok if (ok or other) else None, (gp.file, line),
+                f"'{lab}': {val}" + ('' if ok else (f'; the label names {want}' if other else ': the cell is not in the expected form (an attribute of the parameter)')), f'{lab}:{val.replace(bv + ".", "b.")}', positive=other)
     missing = sorted((set(PARAM_LABELS) | {'Bootstrap Std err'}) - seen_labels)
-    ctx.add('C08.R3', 'get_estimated_parameters:labels', True if not missing else None, gp, 'every column of the parameter table is filled in the row loop' if not missing else f'no cell found for the column(s) {missing}', str(missing))
+    ctx.add('C08.R3', 'get_estimated_parameters:labels', True if not missing and sure else None, gp, 'every column of the parameter table is filled in the row loop' if not missing else f'no cell found for the column(s) {missing}', str(missing))
     ok = has(rows[0], f'_T.loc[{bv}.name] = pd.Series({rowvar})') and not any(isinstance(x, (ast.Continue, ast.Break)) for x in ast.walk(rows[0]))
     ctx.add('C08.R3', 'get_estimated_parameters:rows', ok, gp, 'one row per estimated parameter, indexed by its name' if ok else 'rows of the parameter table changed', 'rows')
     gc = BR.methods['get_correlation_results']
@@ -519,29 +787,6 @@ return biogeme.tools.likelihood_ratio.likelihood_ratio_test((_LU, _KU), (_LR, _K
         '(std) row': ("_DF.loc[f'{_B.name} (std)', _C] = _B.robust_stdErr", '.robust_stdErr', '(std)'),
         '(ttest) row': ("_DF.loc[f'{_B.name} (ttest)', _C] = _B.robust_tTest", '.robust_tTest', '(ttest)'),
     }
-
-    def text_parts(e: ast.expr) -> tuple[str, list[ast.expr]]:
-        """(the literal text, the embedded values) of a text assembled from literals and values: f-string, 'lit %s' % x,
-        'lit {}'.format(x), a + b; any other expression is one embedded value"""
-        if isinstance(e, ast.Constant) and isinstance(e.value, str):
-            return e.value, []
-        if isinstance(e, ast.JoinedStr):
-            txt, vals = '', []
-            for v in e.values:
-                if isinstance(v, ast.FormattedValue):
-                    vals.append(v.value)
-                else:
-                    t_, v_ = text_parts(v)
-                    txt, vals = txt + t_, vals + v_
-            return txt, vals
-        if isinstance(e, ast.BinOp) and isinstance(e.op, ast.Mod) and isinstance(e.left, ast.Constant) and isinstance(e.left.value, str):
-            return re.sub(r'%[-0-9.]*[sdrfg]', '', e.left.value), list(e.right.elts) if isinstance(e.right, ast.Tuple) else [e.right]
-        if isinstance(e, ast.BinOp) and isinstance(e.op, ast.Add):
-            (t1, v1), (t2, v2) = text_parts(e.left), text_parts(e.right)
-            return t1 + t2, v1 + v2
-        if isinstance(e, ast.Call) and isinstance(e.func, ast.Attribute) and e.func.attr == 'format' and isinstance(e.func.value, ast.Constant) and isinstance(e.func.value.value, str):
-            return re.sub(r'\{[^{}]*\}', '', e.func.value.value), list(e.args) + [k.value for k in e.keywords]
-        return '', [e]
 
     # every cell written into the compiled table, read as (parameter variable, literal suffix of its row label, value): the row
     # label is the name of a parameter, alone or followed by a literal suffix, however the text is put together
